@@ -24,6 +24,7 @@ import (
 
 	"github.com/postalsys/muti-metroo/internal/agent"
 	"github.com/postalsys/muti-metroo/internal/config"
+	"github.com/postalsys/muti-metroo/internal/crypto"
 	"github.com/postalsys/muti-metroo/internal/flood"
 	"github.com/postalsys/muti-metroo/internal/identity"
 	"github.com/postalsys/muti-metroo/internal/protocol"
@@ -57,10 +58,11 @@ type Op struct {
 type Case struct {
 	Name     string `json:"name"`
 	N        int    `json:"n"`
-	Limits   []int  `json:"limits"`             // routing.max_hops per node (0 = not set: flooder default)
-	UseAgent bool   `json:"use_agent"`          // nodes are built by agent.New(config)
-	MgmtKey  bool   `json:"mgmt_key,omitempty"` // agent mode: management.public_key is configured (sealed box present)
-	NoModel  bool   `json:"no_model,omitempty"` // judged by the monitors only (outside the assumptions of the model)
+	Limits   []int  `json:"limits"`              // routing.max_hops per node (0 = not set: flooder default)
+	UseAgent bool   `json:"use_agent"`           // nodes are built by agent.New(config)
+	MgmtKey  bool   `json:"mgmt_key,omitempty"`  // agent mode: management.public_key is configured (sealed box present)
+	LongName []int  `json:"long_name,omitempty"` // agents whose display name is 200 two-byte characters (400 bytes, must be cut to fit the one-byte length)
+	NoModel  bool   `json:"no_model,omitempty"`  // judged by the monitors only (outside the assumptions of the model)
 	Ops      []Op   `json:"ops"`
 	Settle   bool   `json:"settle"` // informational: the schedule ends quiescent
 }
@@ -251,7 +253,10 @@ func (s *sender) SendToPeer(peerID identity.AgentID, frame *protocol.Frame) erro
 
 func cidrOf(id int) *net.IPNet {
 	var s string
-	if id < 200 {
+	if id >= 150 && id < 200 {
+		// the same kind of network written in IPv4-mapped notation (a 128-bit mask over an IPv4 address)
+		s = fmt.Sprintf("::ffff:10.%d.0.0/112", id)
+	} else if id < 200 {
 		s = fmt.Sprintf("10.%d.0.0/16", id)
 	} else {
 		s = fmt.Sprintf("fd00:%x::/32", id)
@@ -346,7 +351,9 @@ func (nt *Net) routeObs(r protocol.Route) RouteObs {
 		}
 	case protocol.AddrFamilyIPv6:
 		o.Kind = KCidr
-		if len(r.Prefix) >= 4 {
+		if len(r.Prefix) == 16 && r.Prefix[10] == 0xff && r.Prefix[11] == 0xff && r.Prefix[0] == 0 {
+			o.ID = int(r.Prefix[13]) // IPv4-mapped spelling
+		} else if len(r.Prefix) >= 4 {
 			o.ID = int(r.Prefix[2])<<8 | int(r.Prefix[3])
 		} else {
 			o.ID = 997
@@ -401,7 +408,19 @@ func (nt *Net) advObs(adv *protocol.RouteAdvertise) AdvObs {
 
 var scratchDir string
 
-func agentConfig(i, limit int, mgmt bool) *config.Config {
+// longDisplayName: 200 characters, 400 bytes.
+var longDisplayName = strings.Repeat("\u00e9", 200)
+
+func containsInt(xs []int, x int) bool {
+	for _, y := range xs {
+		if y == x {
+			return true
+		}
+	}
+	return false
+}
+
+func agentConfig(i, limit int, mgmt, long bool) *config.Config {
 	cfg := config.Default()
 	cfg.Agent.ID = NodeID(i).String()
 	if scratchDir == "" {
@@ -419,6 +438,9 @@ func agentConfig(i, limit int, mgmt bool) *config.Config {
 	}
 	if mgmt {
 		cfg.Management.PublicKey = strings.Repeat("5a", 32)
+	}
+	if long {
+		cfg.Agent.DisplayName = longDisplayName
 	}
 	return cfg
 }
@@ -457,7 +479,7 @@ func newNet(c *Case) *Net {
 			limit = c.Limits[i]
 		}
 		if c.UseAgent {
-			cfg := agentConfig(i, limit, c.MgmtKey)
+			cfg := agentConfig(i, limit, c.MgmtKey, containsInt(c.LongName, i))
 			if err := cfg.Validate(); err != nil {
 				panic(fmt.Sprintf("config.Validate: %v", err))
 			}
@@ -474,6 +496,17 @@ func newNet(c *Case) *Net {
 			m := routing.NewManager(nt.ids[i])
 			fc := flood.DefaultFloodConfig()
 			setMaxHops(&fc, limit)
+			if c.MgmtKey {
+				// management key configured (encrypt-only sealed box), as agent.initComponents passes it
+				var pk [crypto.KeySize]byte
+				for k := range pk {
+					pk[k] = 0x5a
+				}
+				fc.SealedBox = crypto.NewSealedBox(pk)
+			}
+			if containsInt(c.LongName, i) {
+				fc.LocalDisplayName = longDisplayName
+			}
 			f := flood.NewFlooder(fc, nt.ids[i], m, &sender{nt: nt, me: i})
 			nt.agents = append(nt.agents, nil)
 			nt.fl = append(nt.fl, f)
